@@ -390,6 +390,9 @@ def main(argv=None) -> int:
     a = ap.parse_args(argv)
     if a.target == "replay":
         return do_replay(a.path)
+    # must be set BEFORE vlib.boot / the harness module are imported: tier-dependent bounds (vlib.boot.B) are evaluated at
+    # import time, also in this process (partition lists are built from them)
+    os.environ["VERIF_TIER"] = a.tier
     return run_property(a.target, a.tier, a.only, a.jobs)
 
 
